@@ -759,6 +759,40 @@ func execOp(s *Sexp) string {
 			}
 			return "ok " + hx(out)
 		})
+	case "mut":
+		// (mut cfg T tag V1 V2): Marshal V1, change the SAME variable in place to V2 (maps keep their
+		// identity, slices their backing array, pointers their pointee), Marshal again
+		c, err := parseCtx(s)
+		if err != nil {
+			return "bad-op " + err.Error()
+		}
+		v1, e1 := parseVal(s.List[4])
+		v2, e2 := parseVal(s.List[5])
+		if e1 != nil || e2 != nil {
+			return "bad-op"
+		}
+		return guard(func() string {
+			if _, err := c.codec(); err != nil {
+				return "builderr"
+			}
+			pv, err := c.newValue(v1)
+			if err != nil {
+				return "bad-op " + err.Error()
+			}
+			d1, err := c.marshalPtr(pv)
+			if err != nil {
+				return "err"
+			}
+			d1 = append([]byte(nil), d1...)
+			if err := mutateInPlace(pv.Elem(), c.td, v2); err != nil {
+				return "bad-op " + err.Error()
+			}
+			d2, err := c.marshalPtr(pv)
+			if err != nil {
+				return "err"
+			}
+			return "ok " + hx(d1) + " " + hx(d2)
+		})
 	case "evolve":
 		// (evolve cfg S S' V PRIOR)
 		if len(s.List) != 6 {
@@ -919,4 +953,70 @@ func truncateSlices(rv reflect.Value) {
 			}
 		}
 	}
+}
+
+// mutateInPlace overwrites the value held in rv with v, keeping identities where Go
+// programs usually do: a non-nil map is emptied and refilled (same map object), a
+// slice re-uses its backing array when it is large enough, a non-nil pointer keeps
+// its pointee.
+func mutateInPlace(rv reflect.Value, t *TyDef, v *Val) error {
+	switch t.K {
+	case "named":
+		if t.Elem.K == "time" {
+			return nil
+		}
+		return mutateInPlace(rv, t.Elem, v)
+	case "struct":
+		j := 0
+		for i, f := range t.Fields {
+			if !fieldEncoded(f) {
+				continue
+			}
+			if j >= len(v.L) {
+				return fmt.Errorf("struct value too short")
+			}
+			if err := mutateInPlace(rv.Field(i), f.T, v.L[j]); err != nil {
+				return err
+			}
+			j++
+		}
+		return nil
+	case "ptr":
+		if v.P == nil || rv.IsNil() {
+			return v.ToReflect(rv, t)
+		}
+		return mutateInPlace(rv.Elem(), t.Elem, v.P)
+	case "map":
+		if v.K == "mn" || rv.IsNil() {
+			return v.ToReflect(rv, t)
+		}
+		for _, k := range rv.MapKeys() {
+			rv.SetMapIndex(k, reflect.Value{})
+		}
+		for _, e := range v.M {
+			k := reflect.New(rv.Type().Key()).Elem()
+			if err := e[0].ToReflect(k, t.Key); err != nil {
+				return err
+			}
+			x := reflect.New(rv.Type().Elem()).Elem()
+			if err := e[1].ToReflect(x, t.Elem); err != nil {
+				return err
+			}
+			rv.SetMapIndex(k, x)
+		}
+		return nil
+	case "slice":
+		if v.K == "y" || rv.IsNil() || rv.Cap() < len(v.L) || len(v.L) == 0 {
+			return v.ToReflect(rv, t)
+		}
+		rv.Set(rv.Slice(0, len(v.L)))
+		for i, e := range v.L {
+			rv.Index(i).Set(reflect.Zero(rv.Type().Elem()))
+			if err := e.ToReflect(rv.Index(i), t.Elem); err != nil {
+				return err
+			}
+		}
+		return nil
+	}
+	return v.ToReflect(rv, t)
 }
